@@ -366,7 +366,7 @@ pub fn run(ctx: &Ctx) -> i32 {
     *EXCL.lock().unwrap() = Some(ex);
     crate::props::c02::KNOWN_ID_REUSE.store(ctx.open_any("layout.stale_cache_after_id_reuse"), std::sync::atomic::Ordering::Relaxed);
     let wx = crate::props::c02::WhereExcl::from_ctx_any(ctx);
-    let cases = ctx.tier.pick(96, 1500);
+    let cases = ctx.tier.pick(240, 1500);
     let tier = ctx.tier;
     if let Some(f) = explore(ctx, "order-limit-offset", || case_strategy(tier, ex, wx), Explore { cases, max_shrink_iters: ctx.tier.pick(100, 400), lanes: ctx.lanes }, &stats, run_case) {
         report.violations.push(f);
